@@ -25,8 +25,8 @@ MANIFEST = dict(
          'gate_refuses_directories_live (7df01dd) are unconditional theorems, fix_state_guards computes that the witness of every '
          'finding recorded as fixed in known_findings.d/C12.json does not reproduce on the model -- a revert breaks the build; the '
          'check additionally turns a reproducing probe of a fixed finding into a VIOLATION and always generates links/directories at '
-         'targets. Statements carry specials_safe (no device/FIFO/socket at a target, or gate_refuses_special: nonregular_regime, '
-         'special_at_target_refuted until design_notes/C12_nonregular_fix.patch lands). --pp-run-program is modelled (PPExternal f, '
+         'targets. gate_refuses_special_live (5a15038) likewise: devices, FIFOs and sockets at targets are refused; no statement '
+         'carries a premise about links or special entries any more (only the "succeeds" theorems need targets_plain). --pp-run-program is modelled (PPExternal f, '
          'translated call, run in the harness) in the footprint/no-overwrite/directory/link statements; success and equals-fresh are '
          'proved without it (no_external). no_overwrite_ok_iff/error_iff hold with NoDup targets discharged from C11 '
          '(targets_distinct_from_c11). MODEL BOUNDARY (not findings): hard links (no inode identity) and symbolic links in the '
@@ -359,7 +359,10 @@ def populate(outdir: str, h: dict) -> None:
     for d in h.get('rodirs', []):
         full = os.path.join(outdir, d)
         if not os.path.lexists(full):
-            os.makedirs(full)
+            try:
+                os.makedirs(full)
+            except OSError:       # a pre-populated regular file sits where the chain would go
+                continue
         if os.path.isdir(full):
             os.chmod(full, 0o555)
 
@@ -814,6 +817,11 @@ def main(chk: core.Check, replay: typing.Optional[str] = None) -> int:
                    'pre': [{'path': 'ns/A_1_0.h', 'kind': 'file', 'content': '', 'mode': 0o644, 'owned': True}],
                    'steps': [{'cls': 0, 'file_mode': None, 'no_overwrite': True, 'dry_run': False},
                              {'cls': 0, 'file_mode': 0o600, 'no_overwrite': False, 'dry_run': False}]})
+        # leftovers that are group/other-writable but not owner-writable, overwritten by an (emulated) unprivileged owner
+        hs.append({'mode': 'nonroot', 'classes': [plain_c3], 'rodirs': [],
+                   'pre': [{'path': 'ns/A_1_0.h', 'kind': 'file', 'content': 'leftover 0\n', 'mode': 0o060, 'owned': True},
+                           {'path': 'nunavut/support/serialization.h', 'kind': 'file', 'content': 'leftover 1\n', 'mode': 0o422, 'owned': True}],
+                   'steps': [{'cls': 0, 'file_mode': None, 'no_overwrite': False, 'dry_run': False}]})
         for what in specials:   # devices / FIFOs at targets, always exercised when generated
             plain_c2 = {'lang': 'c', 'omit': False, 'gensup': 'never', 'trim': False, 'maxl': None, 'ext': None, 'extra': False, 'runprog': False}
             fresh.prepare([plain_c2])
